@@ -273,9 +273,10 @@ def run(ctx: Ctx) -> None:
     points = views = 0
     hists = [gw.derive(rng, syss) for _ in range(n_hist)]
     hists += gw.sweep_histories(rng, syss, gw.MODES if thorough else ("lo", "hi", "rand-hi"), 4 if thorough else 6)
+    hists += gw.code_sweep_histories(rng, syss, gw.MODES if thorough else ("lo", "hi", "rand-hi"))
     for i, (lines, kind, name, cfg) in enumerate(hists):
         eav = rng.random() < 0.5
-        chunks = 1 if kind == "shape-sweep" else rng.choice([1, 1, 1, 4, 8])
+        chunks = 1 if kind in ("shape-sweep", "code-sweep") else rng.choice([1, 1, 1, 4, 8])
         out, errs = gw.run_async(history_trial, lines, cfg, eav, chunks, probes[name])
         ctx.case(("history", "\n".join(lines), eav, chunks), kind != "none", f"history:{kind}")
         kinds[kind] = kinds.get(kind, 0) + 1
